@@ -33,7 +33,9 @@ def is_int(s):
 
 
 def is_float(s):
-    return bool(RE_FLOAT.match(s))
+    # nan / inf are float literals for every reader that uses the language's own float(): a line holding
+    # one is a well-formed line with another value, not a malformed one
+    return bool(RE_FLOAT.match(s)) or s.lower().lstrip("+-") in ("nan", "inf", "infinity")
 
 
 def split_lines(text):
@@ -409,27 +411,59 @@ def retarget_values(doc, i, j):
     return out
 
 
-def enumerate_faults(doc, fill="?!", infix="x", byte_cuts=True, num="7"):
+# what a numeric token may be replaced by: things that look a bit like numbers and are not (the empty
+# replacement is delete-token); nan / inf are float literals - the strict reference decides about them
+LITERALS = ("-", "+", "nan", "inf", "-inf", "1e", "1.2.3", "0x1A", "1.0D+00")
+
+
+LITERAL_ROLES = {"x", "y", "z", "charge", "count", "n-atoms", "n-bonds"}  # values, not identifiers
+
+
+def stride_lines(doc, stride):
+    """representative lines of a LARGE text: every line that is not an atom / bond line, and of each run
+    of atom / bond lines the first, the last and every stride-th"""
+    pick = set()
+    run = []
+    for i, l in enumerate(doc + [("", "end", -1, ())]):
+        if l[1] in ("atom", "bond", "xyz-atom"):
+            if run and (doc[run[-1]][1] != l[1] or doc[run[-1]][2] != l[2]):
+                pick.update({run[0], run[-1]} | set(run[::stride]))
+                run = []
+            run.append(i)
+        else:
+            if run:
+                pick.update({run[0], run[-1]} | set(run[::stride]))
+                run = []
+            if i < len(doc):
+                pick.add(i)
+    return pick
+
+
+def enumerate_faults(doc, fill="?!", infix="x", byte_cuts=True, num="7", only_lines=None):
     """every single structural fault of the document, as JSON-able descriptors (simplest first).
-    `num` is the stray NUMERIC token of the token-adding faults (an integer that is no mol2 bond type)."""
+    `num` is the stray NUMERIC token of the token-adding faults (an integer that is no mol2 bond type).
+    `only_lines` (large texts): the faults are enumerated on these lines only, byte cuts on the last
+    line only, token splits in the middle only."""
     n = len(doc)
+    lean = only_lines is not None
+    chosen = range(n) if not lean else sorted(only_lines)
     # truncation at every line boundary (keep the first k lines), k = 0 .. n-1
-    for k in range(n - 1, -1, -1):
+    for k in (range(n - 1, -1, -1) if not lean else sorted(set(chosen) | {0}, reverse=True)):
         yield {"kind": "truncate", "line": k, "byte": 0}
     # truncation at every byte offset inside the last record
     if byte_cuts:
-        for i in range(last_block_start(doc), n):
+        for i in range(last_block_start(doc) if not lean else max(n - 1, 0), n):
             L = len(doc[i][0])
             for b in range(1, L):
                 yield {"kind": "truncate", "line": i, "byte": b}
-    for i in range(n):
+    for i in chosen:
         yield {"kind": "delete-line", "line": i}
-    for i in range(n):
+    for i in chosen:
         yield {"kind": "duplicate-line", "line": i}
     # a stray non-keyword line in front of every line and at the end
-    for i in range(n + 1):
+    for i in (range(n + 1) if not lean else list(chosen) + [n]):
         yield {"kind": "insert-line", "line": i, "fill": fill}
-    for i in range(n):
+    for i in chosen:
         text, cls, block, toks = doc[i]
         fixed = cls in FIXED_GRAMMAR
         if fixed:
@@ -441,7 +475,7 @@ def enumerate_faults(doc, fill="?!", infix="x", byte_cuts=True, num="7"):
                 tok = text[a:b]
                 if is_int(tok) or is_float(tok):
                     yield {"kind": "duplicate-token", "line": i, "tok": j}
-                    for c in range(1, len(tok)):
+                    for c in (range(1, len(tok)) if not lean else ([len(tok) // 2] if len(tok) > 1 else [])):
                         yield {"kind": "split-token", "line": i, "tok": j, "at": c}
         for j, (a, b, role, flag) in enumerate(toks):
             tok = text[a:b]
@@ -452,6 +486,9 @@ def enumerate_faults(doc, fill="?!", infix="x", byte_cuts=True, num="7"):
             yield {"kind": "garble-token", "line": i, "tok": j, "how": "prefix", "fill": fill}
             if is_int(tok) or is_float(tok):
                 yield {"kind": "garble-token", "line": i, "tok": j, "how": "infix", "fill": infix}
+                if role in LITERAL_ROLES:
+                    for lit in LITERALS:
+                        yield {"kind": "replace-token", "line": i, "tok": j, "with": lit}
             if role == "rti":
                 yield {"kind": "rename-section", "line": i, "tok": j}
             if role in ("n-atoms", "n-bonds", "n-subst", "n-feat", "n-sets", "count") and is_int(tok):
@@ -564,6 +601,8 @@ def apply_fault(doc, f):
             newtok = tok[:1] + f["fill"] + tok[1:]
     elif kind == "rename-section":
         newtok = tok.replace("@<TRIPOS>", "@<TRIPOS>X", 1) if "@<TRIPOS>" in tok else "X" + tok
+    elif kind == "replace-token":
+        newtok = f["with"]
     elif kind == "retarget":
         newtok = str(f["to"])
     elif kind == "count+1":
@@ -575,7 +614,7 @@ def apply_fault(doc, f):
     d = len(newtok) - len(tok)
     new = _replace(text, a, b, newtok)
     # a garbled token is no longer a structural one for a second fault
-    nflag = "F" if kind in ("garble-token", "rename-section") else flag
+    nflag = "F" if kind in ("garble-token", "rename-section", "replace-token") else flag
     toks2 = tuple(toks[:j]) + ((a, b + d, role, nflag),) + tuple((x + d, y + d, r, fl) for (x, y, r, fl) in toks[j + 1 :])
     return doc[:i] + [(new, cls, block, toks2)] + doc[i + 1 :]
 
